@@ -341,7 +341,7 @@ func c18SetOps() []setOp {
 		n    string
 		v    any
 		want string
-	}{{`","`, ",", ","}, {`'+'`, '+', "+"}, {`"é;"`, "é;", "é;"}, {"nil", nil, ""}, {"rune(0)", rune(0), ""}, {`""`, "", ""}, {"7", 7, ""}} {
+	}{{`","`, ",", ","}, {`'+'`, '+', "+"}, {`"é;"`, "é;", "é;"}, {`'é'`, 'é', "é"}, {`'∧'`, '∧', "∧"}, {"nil", nil, ""}, {"rune(0)", rune(0), ""}, {`""`, "", ""}, {"7", 7, ""}} {
 		d := d
 		add("SetDelimiter("+d.n+")", func(in *setInst) {
 			in.s.SetDelimiter(d.v)
@@ -354,7 +354,9 @@ func c18SetOps() []setOp {
 		n    string
 		v    []any
 		want string
-	}{{`"&"`, []any{"&"}, "&"}, {`'|'`, []any{'|'}, "|"}, {`"&",'&'`, []any{"&", '&'}, "&&"}, {"", nil, ""}, {`""`, []any{""}, ""}, {`"vel"`, []any{"vel"}, "vel"}} {
+	}{{`"&"`, []any{"&"}, "&"}, {`'|'`, []any{'|'}, "|"}, {`"&",'&'`, []any{"&", '&'}, "&&"}, {"", nil, ""}, {`""`, []any{""}, ""}, {`"vel"`, []any{"vel"}, "vel"},
+		// runes on both sides of 0x7F / 0xFF / the BMP, alone and mixed with strings; a multi-byte delimiter rune too
+		{`'¬'`, []any{'¬'}, "¬"}, {`'∧'`, []any{'∧'}, "∧"}, {`"a",'∧','\x7f'`, []any{"a", '∧', '\x7f'}, "a∧\x7f"}, {`'😀'`, []any{'😀'}, "😀"}, {`'\u0080'`, []any{'\u0080'}, "\u0080"}} {
 		y := y
 		add("SetSymbol("+y.n+")", func(in *setInst) {
 			in.s.SetSymbol(y.v...)
